@@ -162,7 +162,12 @@ VERS = {
     "version-file-release": (None, None, FSEQ, [2, 1, 3]),
     "version-file-tag-dot": ("beta.", None, FSEQ, "any"),       # accepted text is up to the glue; rendering and creating must succeed
     "version-override-only": ("alpha1", "version", FSEQ, [7, 8, 9, -2, 1]),
+    # VERSION files WITHOUT the Zephyr version fields: only the sequence number pinned / only the version pinned / nothing usable
+    "no-fields-seq-only": (None, "seq", 1234, None),
+    "no-fields-version-only": (None, "version", 1, [7, 8, 9, -2, 1]),
+    "no-fields-at-all": (None, None, 1, None),
 }
+NO_FIELDS = {"no-fields-seq-only", "no-fields-version-only", "no-fields-at-all"}
 VER_NAMES = ["none"] + list(VERS)
 
 
@@ -248,13 +253,16 @@ def run_template(case, agg):
                 vf = os.path.join(d, "VERSION")
                 extra_line, override, want_seq, want_ver = VERS[case["ver"]]
                 with open(vf, "w") as fh:
-                    fh.write("VERSION_MAJOR = 2\nVERSION_MINOR = 1\nPATCHLEVEL = 3\nVERSION_TWEAK = 4\n")
+                    if case["ver"] in NO_FIELDS:
+                        fh.write("# no version fields in this file\nSOMETHING_ELSE = 5\n")
+                    else:
+                        fh.write("VERSION_MAJOR = 2\nVERSION_MINOR = 1\nPATCHLEVEL = 3\nVERSION_TWEAK = 4\n")
                     if extra_line is not None:
                         fh.write(f"EXTRAVERSION = {extra_line}\n")
                     pre = "APP_ROOT" if case["tpl"] == "root" else "NORDIC_TOP"
                     if override in ("both", "version"):
                         fh.write(f"{pre}_VERSION = 7.8.9-beta.1\n")
-                    if override == "both":
+                    if override in ("both", "seq"):
                         fh.write(f"{pre}_SEQ_NUM = 1234\n")
                 ctx.update(build.read_version_file(vf))
             ctx["output_envelope"] = os.path.join(d, "out.suit")
